@@ -48,6 +48,7 @@ type seen struct {
 	method, escPath, query, host string
 	header                       http.Header
 	body                         []byte
+	closeAfter                   bool // Request.Close: the transport would send "Connection: close" to the backend
 }
 
 type recRT struct {
@@ -65,7 +66,7 @@ func body(n int, c byte) []byte {
 }
 
 func (t *recRT) RoundTrip(r *http.Request) (*http.Response, error) {
-	s := seen{method: r.Method, escPath: r.URL.EscapedPath(), query: r.URL.RawQuery, host: r.Host, header: r.Header.Clone()}
+	s := seen{method: r.Method, escPath: r.URL.EscapedPath(), query: r.URL.RawQuery, host: r.Host, header: r.Header.Clone(), closeAfter: r.Close}
 	if r.Body != nil {
 		if t.failRead > 0 {
 			buf := make([]byte, t.failRead)
@@ -369,6 +370,10 @@ func run(rep *kit.Report, rq reqSpec, bl blockSpec, rp replySpec, retry bool) {
 		}
 		if g.host != wantHost {
 			add("host", fmt.Sprintf("%sHost %q want %q", tag, g.host, wantHost))
+		}
+		if g.closeAfter {
+			// (the client's "Connection: close", or its HTTP/1.0, is about the client's connection)
+			add("hop-by-hop-header-forwarded", tag+"the upstream request is marked Close: the transport sends the hop-by-hop header `Connection: close` to the backend")
 		}
 	}
 	// ---- response ----
